@@ -1,4 +1,5 @@
 import HcProofs.Lemmas.PairVerify
+import HcProofs.Lemmas.Handover
 /-
   C03 — a connection becomes verified only by a valid long-term-key signature.
   Model: HcModel/PairVerify.lean (symbolic; the repaired controller + endpoint is `step true`).
@@ -92,6 +93,50 @@ theorem unverified_stays_unverified (c : Nat) (hist : List (Store × In))
       have := ih (pre ++ [x]) (by simpa using hh) h1
       simpa using this
   simpa using key [] hist rfl (by simp [stAfter, init])
+
+-- hand-over to the encrypted session (hap/session.go, hap/connection.go) ------------------------------------------
+
+open Hc.Handover in
+/-- For EVERY sequence of operations on a plaintext connection — reads starting at any moment (net/http's background
+    read), the handler negotiating the cryptographer, the response being written, the controller sending, in any order
+    and multiplicity — the answer to the finish request is written in plaintext, and the connection gets a current
+    (encrypting) cryptographer only after that answer went out. -/
+theorem hand_over_response_plaintext (ops : List Op) :
+    (run true ops).respEncrypted ≠ some true ∧ ((run true ops).cur = true → (run true ops).respEncrypted = some false) := by
+  obtain ⟨h1, h2⟩ := inv_run ops
+  refine ⟨h1, fun hc => ?_⟩
+  cases hr : (run true ops).respEncrypted with
+  | none => rw [h2 hr] at hc; cases hc
+  | some b => cases b <;> simp_all
+
+open Hc.Handover in
+/-- …and bytes the controller sent after the answer are handed on as plaintext only if no cryptographer has been
+    negotiated at all: a read that was already waiting when the cryptographer was negotiated re-classifies them. -/
+theorem hand_over_reads_decrypted (s : Handover.St) (h : (Handover.step true s .readDone).delivered = some false) (hd : s.delivered ≠ some false) :
+    s.cur = false ∧ s.next = false := by
+  simp only [Handover.step] at h
+  split at h
+  · exact absurd h hd
+  · split at h
+    · exact absurd h hd
+    · rename_i dec _ _
+      simp at h
+      cases hc : s.cur <;> cases hn : s.next <;> simp_all
+
+open Hc.Handover in
+/-- the four interleavings of one finish request (read start before the negotiation, between negotiation and answer,
+    after the answer, after the controller's bytes arrived): answer in plaintext, controller's bytes decrypted -/
+theorem hand_over_all_schedules :
+    allSchedules.all (fun ops => (run true ops).respEncrypted == some false && (run true ops).delivered == some true) = true ∧
+    allSchedules.length = 4 := by decide
+
+open Hc.Handover in
+/-- the code before the repair fails on two of them: a read starting between negotiation and answer makes the answer
+    go out ENCRYPTED (≈ 3 % of real handshakes, finding F18); a read already waiting hands ciphertext on as plaintext -/
+theorem hand_over_unfixed_refuted :
+    (run false [.setCrypt, .readStart, .writeResp, .peerSends, .readDone]).respEncrypted = some true ∧
+    (run false [.readStart, .setCrypt, .writeResp, .peerSends, .readDone]).delivered = some false := by decide
+
 
 -- the behaviour before the repair is refuted -----------------------------------------------------------
 
